@@ -1,13 +1,16 @@
 // C02 — no double spend / double resolution.
 //
 // (a) Spent-set trace checker over the diff stream of accepted histories:
-//     every element ID is spent / resolved at most once between its creation
-//     and a revert, and created at most once.
+//
+//	every element ID is spent / resolved at most once between its creation
+//	and a revert, and created at most once.
+//
 // (b) Second-use tamper family: every block the real ValidateBlock accepted is
-//     turned into variants that contain a SECOND USE of some element and are
-//     otherwise impeccable (re-signed, payout/commitment/PoW re-sealed,
-//     supplement rebuilt); each variant must be rejected. The untampered block
-//     is the positive control (it was accepted).
+//
+//	turned into variants that contain a SECOND USE of some element and are
+//	otherwise impeccable (re-signed, payout/commitment/PoW re-sealed,
+//	supplement rebuilt); each variant must be rejected. The untampered block
+//	is the positive control (it was accepted).
 package main
 
 import (
@@ -32,13 +35,13 @@ type stale struct {
 }
 
 type mon struct {
-	b     *harness.B
-	c     *chaingen.Chain
-	fam   string
-	spent map[[32]byte]uint64 // id -> height at which it was spent/resolved
-	made  map[[32]byte]uint64
-	log   [][][32]byte // per applied block: ids spent, for revert
-	logM  [][][32]byte
+	b      *harness.B
+	c      *chaingen.Chain
+	fam    string
+	spent  map[[32]byte]uint64 // id -> height at which it was spent/resolved
+	made   map[[32]byte]uint64
+	log    [][][32]byte // per applied block: ids spent, for revert
+	logM   [][][32]byte
 	stales []*stale
 }
 
@@ -592,6 +595,9 @@ func run(b *harness.B) {
 		m.onApply(c.GenesisEvent)
 		c.OnAccepted = m.onAccepted
 		c.OnStoreApplied = func(ev chaingen.ApplyEvent) {
+			if len(ev.Kinds) >= 3 {
+				b.Sample(chaingen.DescribeBlock(ev.Prev, ev.Block, ev.Kinds))
+			}
 			m.onApply(ev)
 			b.Eval(1)
 			b.Count("blocks_applied", 1)
